@@ -6,6 +6,7 @@ use vcheck::fuzzsupport::{eval, Bytes};
 use vcheck::{c01, c02, c03, c04, c05, c10};
 
 fuzz_target!(|data: &[u8]| {
+    vcheck::fuzzsupport::guarded(|| {
     let mut b = Bytes::new(data);
     let which = b.u8() % 7;
     let mode = b.u8() % 8;
@@ -37,4 +38,5 @@ fuzz_target!(|data: &[u8]| {
             eval(&c04::C04, &c04::Case { op, x: c04::Opnd::Dec(x), y: yy, n: (n >> 2) % 24, mode });
         }
     }
+    });
 });
